@@ -506,7 +506,20 @@ fn covenant_scenario(mon: &mut C09, case_seed: u64) {
             data: Bytes::from(r.bytes(r.clone().usize(40))),
             sigs: vec![Bytes::from(r.bytes(64))],
         };
-        let names: Vec<String> = idx.iter().map(|i| progs[*i].0.clone()).collect();
+        let mut tx = tx;
+        let mut names: Vec<String> = idx.iter().map(|i| progs[*i].0.clone()).collect();
+        if r.chance(1, 4) {
+            // an extra covenant that no input needs (so it is weighed, never run): nested loops whose weight is beyond
+            // 128 bits - the weigher saturates, and the sum over the listed covenants must not wrap or trap
+            let k = 9 + r.usize(4);
+            let mut v = vec![];
+            for i in 0..k {
+                v.push(Op::Loop(65535, (k - i) as u16));
+            }
+            v.push(Op::Noop);
+            tx.covenants.push(Bytes::from(refvm::encode(&v).unwrap()));
+            names.push("listed-only:weight-beyond-128-bits".into());
+        }
         mon.journal(&format!("C09 case={} covenant-spend programs={:?}", case_seed, names));
         mon.rep.eval();
         mon.rep.count("apply_tx calls spending adversarial covenants");
@@ -629,7 +642,7 @@ pub fn run(p: &Params) -> Report {
     let mut rng = Rng::new(p.shard_seed() ^ 0xC09);
     let journal = p.journal.as_ref().and_then(|j| std::fs::File::create(j).ok());
     let mut mon = C09 { rep: Report::new("C09"), case_seed: 0, journal };
-    mon.rep.rule = "cases = API calls (apply_tx_batch, seal, next_unsealed, apply_block, confirm, from_block+header) on random histories over all network classes and fabricated heights with: one hostile mutation per batch (16 field-level mutators + byte-level mutation of the serialization that still deserializes), degenerate requests (zero-valued swaps/deposits/withdrawals, empty/garbage/partial MelPoW proofs at difficulties 0..2^32, undecodable stake documents, faucet-minted liquidity tokens, maximal values), every proposer delta class, multipliers 0..2^40; coins locked by adversarial covenant programs (self-append doubling up to 2^60 elements, nested loops, random bytes/instructions, environment digging, slices/references/updates at, inside and beyond the ends with indexes in either order) spent through apply_tx; histories in which a user creates (and empties) the ERG/SYM pool before the rules enable the built-in one; transactions with 255/256/257/up to 700 inputs of existing coins, 255/256 outputs and hundreds of covenants and signature slots; every call runs under catch_unwind with a panic hook that records message, location and originating crate; each shard is its own process with a journal so an abort is attributed. Supply per denomination is kept below 2^127 by construction. Non-trivial = batch with a hostile or degenerate member; distinct by member hashes".into();
+    mon.rep.rule = "cases = API calls (apply_tx_batch, seal, next_unsealed, apply_block, confirm, from_block+header) on random histories over all network classes and fabricated heights with: one hostile mutation per batch (16 field-level mutators + byte-level mutation of the serialization that still deserializes), degenerate requests (zero-valued swaps/deposits/withdrawals, empty/garbage/partial MelPoW proofs at difficulties 0..2^32, undecodable stake documents, faucet-minted liquidity tokens, maximal values), every proposer delta class, multipliers 0..2^40; coins locked by adversarial covenant programs (self-append doubling up to 2^60 elements, nested loops, random bytes/instructions, environment digging, slices/references/updates at, inside and beyond the ends with indexes in either order) spent through apply_tx, sometimes next to a listed-only covenant whose weight is beyond 128 bits; histories in which a user creates (and empties) the ERG/SYM pool before the rules enable the built-in one; transactions with 255/256/257/up to 700 inputs of existing coins, 255/256 outputs and hundreds of covenants and signature slots; every call runs under catch_unwind with a panic hook that records message, location and originating crate; each shard is its own process with a journal so an abort is attributed. Supply per denomination is kept below 2^127 by construction. Non-trivial = batch with a hostile or degenerate member; distinct by member hashes".into();
     if p.shard == 0 && p.only_case.is_none() {
         probes(&mut mon);
     }
